@@ -204,7 +204,7 @@ def library_view(client):
     return out
 
 
-def client_write(client, k):
+def client_write(client, k, submit=True):
     """The application writes to the k-th writable element the mirror currently lists (assign + submit()). Returns a
     description, or None when there is nothing to write to. Sending a request must not touch the mirror: it changes when
     the device answers."""
@@ -226,5 +226,7 @@ def client_write(client, k):
     val = {"Text": "written", "Number": "42", "Switch": "On", "BLOB": values.BLOB(b"written", ".bin")}[kind]
     vec = client[dn][pn]
     vec[en].value = val
-    vec.submit()
-    return f"{dn}.{pn}.{en} ({kind})"
+    if submit:
+        vec.submit()
+        return f"{dn}.{pn}.{en} ({kind})"
+    return f"{dn}.{pn}.{en} ({kind}, edit left pending)"
